@@ -74,9 +74,10 @@ Proof.
   - destruct (it_snext toks spn run j ctx its p r) as [[[x0 c'] r0]|] eqn:E; [|discriminate].
     now rewrite (IHj _ _ _ _ _ E).
   - destruct its; try discriminate. destruct b; [exact H|]. use_run H; auto.
-  - destruct its as [c|k js|b|c clo chi]; try discriminate.
-    destruct (rep_snext run a clo chi ctx c p r) as [[[x0 c'] r0]|] eqn:E; [|discriminate].
-    now rewrite (rep_snext_mono _ _ _ _ _ _ _ _ E).
+  - destruct its as [c|k js|b|c clo chi|k]; try discriminate.
+    + destruct (rep_snext run a clo chi ctx c p r) as [[[x0 c'] r0]|] eqn:E; [|discriminate].
+      now rewrite (rep_snext_mono _ _ _ _ _ _ _ _ E).
+    + use_run H; auto.
 Qed.
 
 Lemma sdrive_mono : forall fuel fuel' i ctx its lim acc acce p r x, fuel <= fuel' ->
